@@ -19,6 +19,12 @@ func VerifC16Action() {
 	}
 	p1, view := s.probe(s.a0.sid)
 	s.w.drainAll()
+	if verifnd.Bool() {
+		// a refused request in between (a member that does not own it asks to delete a0's entity) leaves the
+		// actions and assets alone
+		s.a1.do(&hagallpb.EntityDeleteRequest{Type: hagallpb.MsgType_MSG_TYPE_ENTITY_DELETE_REQUEST, Timestamp: vts(), RequestId: 41, EntityId: s.eOwn})
+		s.a1.drain()
+	}
 	conns := []*vConn{s.a0, s.a1, s.a2}
 	ai := verifnd.Choice(3)
 	actor := conns[ai]
@@ -92,6 +98,12 @@ func VerifC16Asset() {
 	s := newStepWorld(stepShape{mods: vModVikja | vModOdal, preset: verifnd.Choice(2), prior: verifnd.Bool()})
 	p1, view := s.probe(s.a0.sid)
 	s.w.drainAll()
+	if verifnd.Bool() {
+		// a refused request in between (a member that does not own it asks to delete a0's entity) leaves the
+		// actions and assets alone
+		s.a1.do(&hagallpb.EntityDeleteRequest{Type: hagallpb.MsgType_MSG_TYPE_ENTITY_DELETE_REQUEST, Timestamp: vts(), RequestId: 41, EntityId: s.eOwn})
+		s.a1.drain()
+	}
 	var oldID uint32
 	if j := view.assetIdx(s.eOwn); j >= 0 {
 		oldID = view.assets[j].id
